@@ -33,7 +33,11 @@ func replayOne(r *core.Run) {
 	flag := func(m map[string]interface{}, k string) bool { b, _ := m[k].(bool); return b }
 	kind := str(rec.Key, "kind")
 	input := str(rec.Detail, "input")
-	table, _, _, res := generate(r, "JsSemGen.eval.cfg", map[string]string{"DoReq": "FALSE"})
+	subst := map[string]string{"DoReq": "FALSE"}
+	if q, ok := rec.Detail["q"].(float64); ok && (q == 13 || q == 23) {
+		subst["Q"] = fmt.Sprint(int(q)) // the environment table of the tier that recorded the scenario
+	}
+	table, _, _, res := generate(r, "JsSemGen.eval.cfg", subst)
 	if res == nil || table == nil {
 		r.Infra("cannot obtain the environment table")
 		return
